@@ -24,6 +24,7 @@ type c17Model struct {
 	tcount   map[string]uint64
 	hsamples map[string][]float64 // in seconds for duration histograms
 	hbounds  map[string][]float64
+	hnan     map[string]uint64          // NaN samples recorded per value histogram
 	dbounds  map[string][]time.Duration // duration histograms: the configured bounds and the samples as durations, so that
 	dsamples map[string][]time.Duration // "sample <= bound" is decided on integers, whatever conversion to seconds is used
 }
@@ -65,6 +66,24 @@ func c17Ops() []c17Op {
 			r.Tagged(k1).Histogram("hv", vspec).RecordValue(x)
 			m.hsamples[lbl("hv", k1)] = append(m.hsamples[lbl("hv", k1)], x)
 			m.hbounds[lbl("hv", k1)] = []float64{1, 2}
+		}})
+	}
+	// a NaN sample is "<=" no bound: it may be counted in the total (or left out), never at a finite bound
+	ops = append(ops, c17Op{"hv{k:1} rec NaN", func(r tally.Scope, m *c17Model) {
+		r.Tagged(k1).Histogram("hv", vspec).RecordValue(math.NaN())
+		m.hnan[lbl("hv", k1)]++
+		if m.hsamples[lbl("hv", k1)] == nil {
+			m.hsamples[lbl("hv", k1)] = []float64{}
+		}
+		m.hbounds[lbl("hv", k1)] = []float64{1, 2}
+	}})
+	// one name on two scopes with the same THREE tag keys (a canonical id must not depend on the order in which a tag map is walked)
+	for _, v := range []string{"1", "2"} {
+		v := v
+		t3 := map[string]string{"a": v, "b": v, "c": v}
+		ops = append(ops, c17Op{fmt.Sprintf("c3%s inc 1", tagString(t3)), func(r tally.Scope, m *c17Model) {
+			r.Tagged(t3).Counter("c3").Inc(1)
+			m.counters[lbl("c3", t3)]++
 		}})
 	}
 	ops = append(ops, c17Op{"hv{k:2} rec 1", func(r tally.Scope, m *c17Model) {
@@ -148,8 +167,8 @@ func gatherCheck(reg *prom.Registry, m *c17Model, timers map[string]uint64) (str
 					continue
 				}
 				samples := m.hsamples[id]
-				if mt.Histogram.GetSampleCount() != uint64(len(samples)) {
-					return "histogram-total", fmt.Sprintf("%s total %d, %d samples recorded", id, mt.Histogram.GetSampleCount(), len(samples))
+				if tot := mt.Histogram.GetSampleCount(); tot != uint64(len(samples)) && tot != uint64(len(samples))+m.hnan[id] {
+					return "histogram-total", fmt.Sprintf("%s total %d, %d samples recorded (and %d NaNs)", id, tot, len(samples), m.hnan[id])
 				}
 				if db := m.dbounds[id]; db != nil {
 					// duration histogram: bucket i belongs to the configured bound i; the exposed bound is that
@@ -235,7 +254,7 @@ func gatherCheck(reg *prom.Registry, m *c17Model, timers map[string]uint64) (str
 
 func newC17Model() *c17Model {
 	return &c17Model{counters: map[string]float64{}, gauges: map[string]float64{}, tcount: map[string]uint64{}, hsamples: map[string][]float64{}, hbounds: map[string][]float64{},
-		dbounds: map[string][]time.Duration{}, dsamples: map[string][]time.Duration{}}
+		dbounds: map[string][]time.Duration{}, dsamples: map[string][]time.Duration{}, hnan: map[string]uint64{}}
 }
 
 func c17Jobs(tier string) []*SeqJob {
@@ -269,7 +288,7 @@ func c17Jobs(tier string) []*SeqJob {
 				if c, d := gatherCheck(reg, m, m.tcount); c != "" {
 					return c, "after " + fmt.Sprint(histLabels(alphabet, hist)) + " + final pass: " + d
 				}
-				key = fmt.Sprint(tt, m.counters, m.gauges, m.tcount, m.hsamples)
+				key = fmt.Sprint(tt, m.counters, m.gauges, m.tcount, m.hsamples, m.hnan)
 				return "", ""
 			})
 			return
